@@ -16,7 +16,7 @@ from harness.core import z, coq_list, coq_opt, coq_str, coq_bool
 PID = "C20"
 GEN_GROUPS = ["ClientShape"]
 TARGETS = ["coq/Props/C20.vo", "coq/Model/Client.vo"]
-CASES = {"quick": 700, "thorough": 5000}
+CASES = {"quick": 700, "thorough": 2500}
 CORR_HEADER = ("From Coq Require Import ZArith List String.\n"
                "From ACN Require Import Base.Num Model.Client.\nImport ListNotations.\n"
                "Open Scope string_scope.\nOpen Scope Z_scope.\n")
